@@ -13,10 +13,10 @@ pub fn prop() -> Prop {
     Prop {
         id: "C13",
         level: "model_checking",
-        rule: "(a) every alias of every function against the canonical name on every documented example and on every argument tuple (arity <=3) over 6 atoms of all types; (b) 48 expressions (a third reading :v, @m, a selected name or ^ after --split-by) as --select (first and later), --filter, --sort-by (both directions), --group-by, --split-by, --set macro and --set variable, the late positions also behind another --select over all sequences of <=3 (thorough <=5) values over 5 records, and over 700 records for the expressions reading variables and macros; (c) 40 expressions, and 22 big ones (nesting depth 9..65, 9..130 arguments, literals and names of 31..300 characters), in 14 spellings (separators blank, comma, comma-blank, two blanks, tab, newline; padding before the closing parenthesis; leading-dot sugar; a comma directly after a variable, macro, key, number, string) (d) --regular-expression-cache-size in {0,1,2,64} x all sequences of <=2 (thorough <=3) (subject, pattern) pairs over 4 subjects x 6 patterns and of <=4 (thorough <=6) over a 12-pair core (one invalid pattern; two pairs whose pattern+subject texts glue to the same string) through match and extract_regex_group, and sequences with 0/1/2/7 more distinct patterns than a cache of 2/3/16/64 holds, each revisited; five big patterns (\\w{30}, \\p{L}{60}, ..) under cache sizes 0/1/3/64; non-trivial = the compared forms differ textually and the value is not nothing; distinct by construction; (e) 12 expressions that use one macro body (given with --set) under different bindings of the names it mentions (define/set around the use, shadowing a --set binding), each alone against the reference evaluator and all ordered pairs (thorough: all triples) as selections of one run; in (b) sort and group positions are also tried next to a second --sort-by that ties every row; 27 patterns covering the constructs of the pattern syntax (counted repetition with braces, lone braces, alternation, anchors, classes, flags, escapes, optional groups, the empty pattern) x 15 subjects (some with CR, CR LF, LF) x cache sizes 0,1,2,64 against the regex crate, each with a regex call whose subject is the result of another regex call",
+        rule: "(a) every alias of every function against the canonical name on every documented example and on every argument tuple (arity <=3) over 6 atoms of all types; (b) 48 expressions (a third reading :v, @m, a selected name or ^ after --split-by) as --select (first and later), --filter, --sort-by (both directions), --group-by, --split-by, --set macro and --set variable, the late positions also behind another --select over all sequences of <=3 (thorough <=5) values over 5 records, and over 700 records for the expressions reading variables and macros; (c) 40 expressions, and 22 big ones (nesting depth 9..65, 9..130 arguments, literals and names of 31..300 characters), in 14 spellings (separators blank, comma, comma-blank, two blanks, tab, newline; padding before the closing parenthesis; leading-dot sugar; a comma directly after a variable, macro, key, number, string) (d) --regular-expression-cache-size in {0,1,2,64} x all sequences of <=2 (thorough <=3) (subject, pattern) pairs over 4 subjects x 6 patterns and of <=4 (thorough <=6) over a 12-pair core (one invalid pattern; two pairs whose pattern+subject texts glue to the same string) through match and extract_regex_group, and sequences with 0/1/2/7 more distinct patterns than a cache of 2/3/16/64 holds, each revisited; five big patterns (\\w{30}, \\p{L}{60}, ..) under cache sizes 0/1/3/64; (f) the documented example call of every function with each literal argument in turn spelled as a variable (sigil and function spelling) or macro bound to a member that changes from record to record and from element to element (A B A A / B A B B), against the call that reads the member directly; non-trivial = the compared forms differ textually and the value is not nothing; distinct by construction; (e) 12 expressions that use one macro body (given with --set) under different bindings of the names it mentions (define/set around the use, shadowing a --set binding), each alone against the reference evaluator and all ordered pairs (thorough: all triples) as selections of one run; in (b) sort and group positions are also tried next to a second --sort-by that ties every row; 27 patterns covering the constructs of the pattern syntax (counted repetition with braces, lone braces, alternation, anchors, classes, flags, escapes, optional groups, the empty pattern) x 15 subjects (some with CR, CR LF, LF) x cache sizes 0,1,2,64 against the regex crate, each with a regex call whose subject is the result of another regex call",
         explanation: "differential inside the implementation (same run, several selections; or the rows kept / ordered / grouped / produced versus the values the same expression has as a selection) and, for the regex cache, against the regex crate called directly",
         assumptions: COMMON_ASSUMPTIONS.to_vec(),
-        guards: vec!["pattern-syntax-under-every-cache-size", "one-macro-body-under-two-bindings", "position-next-to-another-sort", "big-patterns", "hundreds-of-rows-in-every-position", "more-patterns-than-the-cache-holds", "alias-with-value", "filter-kept-and-dropped", "sort-reordered", "group-two-keys", "split-produced-rows", "comma-after-variable", "dot-sugar", "cache-eviction", "invalid-pattern", "macro-position", "variable-position"],
+        guards: vec!["function-argument-bound-anew-for-every-record", "pattern-syntax-under-every-cache-size", "one-macro-body-under-two-bindings", "position-next-to-another-sort", "big-patterns", "hundreds-of-rows-in-every-position", "more-patterns-than-the-cache-holds", "alias-with-value", "filter-kept-and-dropped", "sort-reordered", "group-two-keys", "split-produced-rows", "comma-after-variable", "dot-sugar", "cache-eviction", "invalid-pattern", "macro-position", "variable-position"],
         budget_s: (100, 1800),
         single_worker: false,
         run,
@@ -836,5 +836,8 @@ fn run(ctx: &mut Ctx) {
     cache_threshold_part(ctx);
     pattern_syntax_part(ctx);
     shared_site_part(ctx);
+    // (f) an argument spelled as a variable or macro that is bound anew for every record / element means what the
+    // argument itself means, for every function (shared with C12, where it is the binding that is under test)
+    super::c12::rebinding_around_every_function(ctx);
     let _ = Tier::Quick;
 }
